@@ -45,4 +45,17 @@ WalkRec(acc, x, steps, k, l, r, wall) ==
   IN IF OutL(x2, l) \/ OutR(x2, r) THEN <<a2, TRUE>> ELSE WalkRec(a2, x2, steps, k + 1, l, r, wall)
 Walk(x0, steps, l, r, wall) == WalkRec(<<x0>>, x0, steps, 1, l, r, wall)
 
+(* wire-fencing (high-acceptance) weight of a path for the fence [m, c): the frames on runs of fence frames that are entered *)
+(* and left inside the path, unless entered from the right and left to the right; doubled when the path connects the two    *)
+(* sides (starts left of m and ends right of c, or the other way round)                                                      *)
+FenceIn(x, m, c) == m <= x /\ x < c
+FenceRuns(s, m, c) == {ab \in (2..(Len(s)-1)) \X (2..(Len(s)-1)) :
+                         /\ ab[1] <= ab[2] /\ \A k \in ab[1]..ab[2] : FenceIn(s[k], m, c)
+                         /\ ~FenceIn(s[ab[1]-1], m, c) /\ ~FenceIn(s[ab[2]+1], m, c)}
+FenceCounted(s, m, c) == {ab \in FenceRuns(s, m, c) : ~(s[ab[1]-1] >= c /\ s[ab[2]+1] >= c)}
+RECURSIVE FenceSum(_)
+FenceSum(S) == IF S = {} THEN 0 ELSE LET x == CHOOSE y \in S : TRUE IN (x[2] - x[1] + 1) + FenceSum(S \ {x})
+FenceWeight(s, m, c) == FenceSum(FenceCounted(s, m, c))
+SideOf(x, m, c) == IF x < m THEN "L" ELSE IF x >= c THEN "R" ELSE "in"
+HAWeight(s, m, c) == FenceWeight(s, m, c) * (IF SideOf(s[1], m, c) # SideOf(s[Len(s)], m, c) THEN 2 ELSE 1)
 =============================================================================
